@@ -751,11 +751,14 @@ def wl_joinjump(times: int = 1) -> Workflow:
     )
 
 
-def wl_forward_jump() -> Workflow:
-    """s jumps forward over the diamond (p,q -> m) to e."""
+def wl_forward_jump(extra_task: bool = False) -> Workflow:
+    """s jumps forward over the diamond (p,q -> m) to e (optionally from the first of two tasks)."""
+    st: dict[str, dict[str, Any]] = {"t1": {"kind": "jump", "target": "e", "times": 1}}
+    if extra_task:
+        st["t2"] = dict(OK)
     return workflow(
         [
-            stage("s", tasks={"t1": {"kind": "jump", "target": "e", "times": 1}}),
+            stage("s", tasks=st),
             stage("p", ["s"]),
             stage("q", ["s"]),
             stage("m", ["p", "q"]),
@@ -829,6 +832,7 @@ WORKLOADS: dict[str, Callable[[], Workflow]] = {
     "suspend2": lambda: wl_suspend(signals=2),
     "mutex": wl_mutex,
     "choice": wl_choice,
+    "fwdjump_t2": lambda: wl_forward_jump(extra_task=True),
     "poll2_t2": lambda: wl_poll(2, then_ok=True),
     "diamond_j2": lambda: wl_diamond(join_tasks=2),
     "after2": lambda: wl_synthetic("after2"),
